@@ -418,6 +418,29 @@ def gen_case(rng, malformed):
     kind = "valid"
     o_int = int(rng.integers(0, m))
     o_list = [int(x) for x in rng.integers(0, m, size=len(freq))]
+    if not malformed and rng.random() < 0.3:
+        # two retained poles on opposite sides of one request at nearly equal distance: the LOWER one is closer in |p - f|,
+        # the UPPER one is "closer" under a pole-relative metric |1 - f/p| (or f/p); decisive margins (>= 0.5 rtol relative)
+        k = int(rng.integers(0, len(freq)))
+        f = freq[k]
+        rt2 = float(rng.choice([0.05, 0.02, 1 / 32, 0.01, 1 / 16]))
+        c = int(rng.integers(0, m))
+        if rng.random() < 0.5:  # both inside the tolerance: the lower pole must be returned
+            a = 0.8 * rt2 * f
+            b = a * (1 + 0.8 * rt2)
+        else:  # lower pole inside, upper pole outside: the lower pole must be returned (a wrong metric returns nothing)
+            a = (1 - rt2 / 2) * rt2 * f
+            b = (1 + rt2 / 2) * rt2 * f
+        if f - a > 0 and (b - a) * f < 2 * a * b:
+            rtol = rt2
+            col = Fn[:, c]
+            col[np.abs(col - f) < 4 * max(rtol * f, rtol, deltaf)] = np.nan
+            rows = [int(x) for x in rng.permutation(n)[:2]]
+            Fn[rows[0], c], Fn[rows[1], c] = f + b, f - a
+            Lab[rows[0], c], Lab[rows[1], c] = int(rng.random() < 0.5), int(rng.random() < 0.5)
+            o_int = c
+            o_list[k] = c
+            kind = "valid"
     if malformed:
         kind = str(rng.choice(["unsorted", "overlap", "nan-column", "order-out-of-range", "short-list", "duplicate-request"]))
         if kind == "unsorted":
@@ -449,12 +472,96 @@ def in_domain(case):
 
 
 # ------------------------------------------------------------------------------------------------------------
+# calls on private copies (inputs must come back bit-identical) and call sequences on shared tables
+def fresh(P):
+    return {k: (None if v is None else np.array(v, copy=True)) for k, v in P.items()}
+
+
+def changed(W, P):
+    return [k for k in P if P[k] is not None and not (W[k] is not None and W[k].dtype == P[k].dtype and eqv(W[k], P[k]))]
+
+
+def raw_call(routine, W, freq, order, cov, rtol, deltaf):
+    fr = list(freq)
+    od = list(order) if isinstance(order, list) else order
+    if routine == "ssi":
+        kw = dict(Lab=W["Lab"], rtol=rtol)
+        if cov:
+            kw.update(Fn_cov=W["Fn_cov"], Xi_cov=W["Xi_cov"], Phi_cov=W["Phi_cov"])
+        out, err = call(ssi.SSI_mpe, fr, W["Fn"], W["Xi"], W["Phi"], od, **kw)
+    else:
+        out, err = call(plscf.pLSCF_mpe, fr, W["Fn"], W["Xi"], W["Phi"], od, Lab=W["Lab"], deltaf=deltaf, rtol=rtol)
+    args_changed = ([] if fr == list(freq) else ["sel_freq"]) + ([] if od == order else ["order"])
+    return out, err, args_changed
+
+
+def same_out(a, b):
+    (oa, ea), (ob, eb) = a, b
+    if ea or eb:
+        return ea == eb
+    if len(oa) != len(ob):
+        return False
+    for x, y in zip(oa, ob):
+        if (x is None) != (y is None):
+            return False
+        if x is not None and not eqv(np.asarray(x), np.asarray(y)):
+            return False
+    return True
+
+
+def brief(o):
+    out, err = o
+    if err:
+        return err
+    return "Fn=%s Xi=%s order_out=%s" % (np.asarray(out[0]).tolist(), np.asarray(out[1]).tolist(), None if out[3] is None else np.asarray(out[3]).tolist())
+
+
 class Runner:
     def __init__(self, ctx):
         self.ctx = ctx
         self.exprs = []
         self.meta = []
         self.lab7 = None
+        self._specs = []
+
+    def icall(self, site, routine, order, cov, P, freq, rtol, deltaf, case, lab=None, record=True):
+        """One implementation call on private copies of every array argument; oracle clause: the arguments are unchanged."""
+        Q = P if lab is None else dict(P, Lab=lab)
+        W = fresh(Q)
+        out, err, ach = raw_call(routine, W, freq, order, cov, rtol, deltaf)
+        ch = changed(W, Q) + ach
+        if ch:
+            self.ctx.fail("oracle", "%s(order=%s) modified its input %s in place (a later extraction on the same tables then sees other poles)"
+                          % (site, order if not isinstance(order, list) else "list", ch), dict(case, site=site, order=order, mutated=ch),
+                          key="C11:%s:input-mutated" % site)
+        if record:
+            self._specs.append((site, routine, order, cov, (out, err)))
+        return out, err
+
+    def sequences(self, case, P, freq, rtol, deltaf):
+        """Several extractions on the SAME arrays: every call must return what it returns on fresh copies."""
+        specs, self._specs = self._specs, []
+        if not specs:
+            return
+        rnd = self.ctx.rng
+        seq = specs[:]
+        rnd.shuffle(seq)
+        fm = [x for x in specs if x[2] == "find_min" and x[1] == "ssi"]
+        if fm and rnd.random() < 0.6:
+            seq = [fm[0]] + seq
+        seq = seq + [rnd.choice(specs), rnd.choice(specs)]
+        W = fresh(P)
+        done = []
+        for site, routine, order, cov, ref in seq:
+            out, err, _ = raw_call(routine, W, freq, order, cov, rtol, deltaf)
+            self.ctx.count(dict(case, site=site, order=order, cov=cov, after=[d for d in done]), nontrivial=True)
+            self.ctx.hist("sequence", "call %d on the same tables" % min(len(done) + 1, 9))
+            if not same_out((out, err), ref):
+                self.ctx.fail("oracle", "%s(order=%s) after %s on the same tables returns %s; on fresh copies of the tables it returns %s"
+                              % (site, order if not isinstance(order, list) else order, done, brief((out, err)), brief(ref)),
+                              dict(case, site=site, order=order, calls_before=done), key="C11:%s:call-sequence" % site)
+                break
+            done.append("%s(%s)" % (site, order if not isinstance(order, list) else order))
 
     def report(self, site, res, case, extra=None):
         if res is None or res == "skip":
@@ -469,10 +576,10 @@ class Runner:
         Lab = np.array([[1, 1, 1], [0, 0, 0]])
         tabs = payload(2, 3)
         case = dict(kind="witness", Fn=tab_json(Fn), Lab=Lab.tolist(), freq=[5.0], rtol=0.01, deltaf=0.05)
-        out, err = call(plscf.pLSCF_mpe, [5.0], Fn, tabs["Xi"], tabs["Phi"], "find_min", Lab=Lab, deltaf=0.05, rtol=0.01)
+        out, err = call(plscf.pLSCF_mpe, [5.0], Fn.copy(), tabs["Xi"].copy(), tabs["Phi"].copy(), "find_min", Lab=Lab.copy(), deltaf=0.05, rtol=0.01)
         impl = canon_impl(out, err, tabs, 1, False)
         res = oracle_findmin(Fn, Lab, 1, tabs, [5.0], 0.05, True, 0.01, impl)
-        out7, err7 = call(plscf.pLSCF_mpe, [5.0], Fn, tabs["Xi"], tabs["Phi"], "find_min", Lab=np.where(Lab == 1, 7, Lab), deltaf=0.05, rtol=0.01)
+        out7, err7 = call(plscf.pLSCF_mpe, [5.0], Fn.copy(), tabs["Xi"].copy(), tabs["Phi"].copy(), "find_min", Lab=np.where(Lab == 1, 7, Lab), deltaf=0.05, rtol=0.01)
         impl7 = canon_impl(out7, err7, tabs, 1, False)
         self.lab7 = bool(impl7[0] == "O" and impl7[1] == [(Fraction(5), frozenset([0]))] and impl7[2] == [0])
         self.ctx.count(case)
@@ -492,6 +599,8 @@ class Runner:
         freq = [float(f) for f in case["freq"]]
         rtol, deltaf = float(case["rtol"]), float(case.get("deltaf", 0.05))
         tabs = payload(n, m)
+        P = dict(tabs, Fn=Fn, Lab=Lab)  # pristine tables: the implementation only ever gets copies
+        self._specs = []
         dom = in_domain(dict(case, deltaf=deltaf)) and case.get("kind", "valid") in ("valid", "corpus")
         nontriv = bool(np.isnan(Fn).any() and n > 1 and m > 1)
         ctx.hist("kind", case.get("kind", "valid"))
@@ -513,13 +622,7 @@ class Runner:
             jd = judged_explicit(Fn, freq, cols, rtol)
             runs = []
             for site, cov in (("SSI_mpe", False), ("SSI_mpe", True), ("pLSCF_mpe", False)):
-                if site == "SSI_mpe":
-                    kw = dict(Lab=Lab, rtol=rtol)
-                    if cov:
-                        kw.update(Fn_cov=tabs["Fn_cov"], Xi_cov=tabs["Xi_cov"], Phi_cov=tabs["Phi_cov"])
-                    out, err = call(ssi.SSI_mpe, list(freq), Fn, tabs["Xi"], tabs["Phi"], order, **kw)
-                else:
-                    out, err = call(plscf.pLSCF_mpe, list(freq), Fn, tabs["Xi"], tabs["Phi"], order, Lab=Lab, deltaf=deltaf, rtol=rtol)
+                out, err = self.icall(site + (".cov" if cov else ""), "ssi" if site == "SSI_mpe" else "plscf", order, cov, P, freq, rtol, deltaf, case)
                 impl = canon_impl(out, err, tabs, len(freq), cov)
                 ctx.count(dict(case, site=site, order=order, cov=cov), nontrivial=nontriv)
                 ctx.hist("order", "%s:%s" % (site, oname))
@@ -539,12 +642,9 @@ class Runner:
         jd = judged_findmin(Fn, Lab, 1, freq, rtol, False, rtol)
         runs = []
         for cov in (False, True):
-            kw = dict(Lab=Lab, rtol=rtol)
-            if cov:
-                kw.update(Fn_cov=tabs["Fn_cov"], Xi_cov=tabs["Xi_cov"], Phi_cov=tabs["Phi_cov"])
-            out, err = call(ssi.SSI_mpe, list(freq), Fn, tabs["Xi"], tabs["Phi"], "find_min", **kw)
-            impl = canon_impl(out, err, tabs, len(freq), cov)
             site = "SSI_mpe" + (".cov" if cov else "")
+            out, err = self.icall(site, "ssi", "find_min", cov, P, freq, rtol, deltaf, case)
+            impl = canon_impl(out, err, tabs, len(freq), cov)
             ctx.count(dict(case, site=site, order="find_min"), nontrivial=nontriv)
             ctx.hist("order", "SSI_mpe:find_min")
             if not jd:
@@ -565,7 +665,7 @@ class Runner:
         jd = judged_findmin(Fn, Lab, 1, freq, deltaf, True, rtol)
         runs = []
         for lname, L in (("0/1", Lab), ("7", np.where(Lab == 1, 7, Lab))):
-            out, err = call(plscf.pLSCF_mpe, list(freq), Fn, tabs["Xi"], tabs["Phi"], "find_min", Lab=L, deltaf=deltaf, rtol=rtol)
+            out, err = self.icall("pLSCF_mpe", "plscf", "find_min", False, P, freq, rtol, deltaf, case, lab=(None if lname == "0/1" else L), record=(lname == "0/1"))
             ctx.count(dict(case, site="pLSCF_mpe", order="find_min", labels=lname), nontrivial=nontriv)
             ctx.hist("order", "pLSCF_mpe:find_min(labels %s)" % lname)
             if not jd:
@@ -577,7 +677,7 @@ class Runner:
                 impl = canon_impl(out, err, tabs, len(freq), False)
                 res = oracle_findmin(Fn, Lab, 1, tabs, freq, deltaf, True, rtol, impl)
                 if res not in (None, "skip"):
-                    out0, err0 = call(plscf.pLSCF_mpe, list(freq), Fn, tabs["Xi"], tabs["Phi"], "find_min", Lab=np.zeros_like(Lab), deltaf=deltaf, rtol=rtol)
+                    out0, err0 = self.icall("pLSCF_mpe", "plscf", "find_min", False, P, freq, rtol, deltaf, case, lab=np.zeros_like(Lab), record=False)
                     blind = (err is None and err0 is None and res[0] == "no-pole-returned"
                              and all(eqv(a, b) for a, b in zip(out[:3], out0[:3])) and canon_oo(out[3], 1) == canon_oo(out0[3], 1))
                     key = KNOWN_KEY if (self.lab7 and blind) else "C11:pLSCF_mpe:find_min:%s" % res[0]
@@ -596,6 +696,7 @@ class Runner:
         metas.append(("conforming", exp))
         self.exprs.append(let + ' ++ "#" ++ '.join(parts))
         self.meta.append((case, tabs, metas, src))
+        self.sequences(case, P, freq, rtol, deltaf)
 
     # -------- compare with the model
     def finish(self):
@@ -726,7 +827,7 @@ class ClassRunner(Runner):
                         tb.update(Fn_cov=None, Xi_cov=None, Phi_cov=None)
                     variants.append((case, tb))
                 for tag, tb in variants:
-                    self.set_tables(alg.result, tb, is_ssi)
+                    self.set_tables(alg.result, fresh(tb), is_ssi)
                     Fn, Lab = tb["Fn"], tb["Lab"]
                     n, m = Fn.shape
                     if tag == "own":
@@ -773,6 +874,7 @@ class ClassRunner(Runner):
         let = "let Fn := %s in let Lab := %s in let Pay := id_tab %d %d in let fr := %s in let rt := %s in let df := %s in " % (
             coq_tab(Fn), coq_lab(Lab), n, m, coq_freq(freq), coq_q(rtol), coq_q(0.05))
         parts, metas = [], []
+        seq_specs = []
         for oname in ("int", "list", "find_min"):
             if oname == "int":
                 order, cols = int(rq["o_int"]), [int(rq["o_int"])] * len(freq)
@@ -784,9 +886,13 @@ class ClassRunner(Runner):
             else:
                 order, cols = "find_min", None
                 expr = "showRes (ssi_mpe Fn Pay Lab fr FindMin rt)" if is_ssi else "showPresent (plscf_find_min_present Fn Pay Lab fr df rt)"
-            _, err = call(ss.mpe, name, sel_freq=list(freq), order=order, rtol=rtol)
-            r = alg.result
-            out = None if err else ((r.Fn, r.Xi, r.Phi, r.order_out, r.Fn_cov, r.Xi_cov, r.Phi_cov) if is_ssi else (r.Fn, r.Xi, r.Phi, r.order_out))
+            self.set_tables(alg.result, fresh(tb), is_ssi)  # private copies of the result tables for this call
+            out, err = self.class_mpe(ss, name, alg, is_ssi, freq, order, rtol)
+            ch = changed(self.cur_tables(alg.result, is_ssi), {k: v for k, v in tb.items() if is_ssi or not k.endswith("_cov")})
+            if ch:
+                ctx.fail("oracle", "%s.mpe(order=%s) modified the result tables %s in place (a later mpe on the same object then sees other poles)"
+                         % (name, order if not isinstance(order, list) else "list", ch), dict(case, order=order, mutated=ch), key="C11:%s.mpe:input-mutated" % name)
+            seq_specs.append((order, (out, err)))
             ctx.count(dict(case, order=order), nontrivial=True)
             ctx.hist("order", "%s.mpe:%s" % (name, oname))
             if oname == "find_min":
@@ -821,6 +927,38 @@ class ClassRunner(Runner):
         if parts:
             self.exprs.append(let + ' ++ "#" ++ '.join(parts))
             self.meta.append((case, tabs, metas, "class"))
+        # several mpe calls on the SAME algorithm object / result tables: each must return what it returns on fresh tables
+        rnd = ctx.rng
+        seq = seq_specs[:]
+        rnd.shuffle(seq)
+        if rnd.random() < 0.6:
+            seq = [x for x in seq_specs if x[0] == "find_min"] + seq
+        seq = seq + [rnd.choice(seq_specs)]
+        self.set_tables(alg.result, fresh(tb), is_ssi)
+        done = []
+        for order, ref in seq:
+            got = self.class_mpe(ss, name, alg, is_ssi, freq, order, rtol)
+            ctx.count(dict(case, order=order, after=list(done)), nontrivial=True)
+            ctx.hist("sequence", "%s.mpe call %d on the same object" % (name, min(len(done) + 1, 9)))
+            if not same_out(got, ref):
+                ctx.fail("oracle", "%s.mpe(order=%s) after %s on the same object returns %s; with fresh result tables it returns %s"
+                         % (name, order, done, brief(got), brief(ref)), dict(case, order=order, calls_before=done), key="C11:%s.mpe:call-sequence" % name)
+                break
+            done.append("mpe(%s)" % (order,))
+
+    @staticmethod
+    def class_mpe(ss, name, alg, is_ssi, freq, order, rtol):
+        _, err = call(ss.mpe, name, sel_freq=list(freq), order=(list(order) if isinstance(order, list) else order), rtol=rtol)
+        r = alg.result
+        out = None if err else ((r.Fn, r.Xi, r.Phi, r.order_out, r.Fn_cov, r.Xi_cov, r.Phi_cov) if is_ssi else (r.Fn, r.Xi, r.Phi, r.order_out))
+        return out, err
+
+    @staticmethod
+    def cur_tables(res, is_ssi):
+        d = dict(Fn=res.Fn_poles, Xi=res.Xi_poles, Phi=res.Phi_poles, Lab=res.Lab)
+        if is_ssi:
+            d.update(Fn_cov=res.Fn_poles_cov, Xi_cov=res.Xi_poles_cov, Phi_cov=res.Phi_poles_cov)
+        return {k: (None if v is None else np.asarray(v)) for k, v in d.items()}
 
     def finish_classes(self):
         ctx = self.ctx
@@ -860,7 +998,8 @@ def run(ctx):
         R.finish()
         return
     # corpus first (failing inputs of repaired defects)
-    for path in sorted(glob.glob(os.path.join(VERIF, "corpus", "C11", "*.json"))):
+    skip_corpus = os.environ.get("VERIF_C11_SKIP_CORPUS") == "1"  # testing aid only: shows what the generator alone finds
+    for path in ([] if skip_corpus else sorted(glob.glob(os.path.join(VERIF, "corpus", "C11", "*.json")))):
         case = json.load(open(path))
         case.setdefault("kind", "corpus")
         R.add_case(case, src=os.path.basename(path))
